@@ -60,7 +60,7 @@ def params_to_coq(p):
         cpairs(p['prefix_limits']), cgr(p['gr']), cllgr(p['llgr']))
 
 def op_to_val(o):
-    return [{'connect': 0, 'disconnect': 1, 'admin': 2, 'disable': 3, 'enable': 4, 'delete': 5}[o[0]], addr_to_val(o[1]), int(o[2])]
+    return [{'connect': 0, 'disconnect': 1, 'admin': 2, 'disable': 3, 'enable': 4, 'delete': 5, 'delrace': 6}[o[0]], addr_to_val(o[1]), int(o[2])]
 
 def op_to_coq(o):
     if o[0] == 'connect': return '(OConnect %s %s)' % (caddr(o[1]), crole(o[2]))
@@ -68,6 +68,7 @@ def op_to_coq(o):
     if o[0] == 'disable': return '(ODisable %s)' % caddr(o[1])
     if o[0] == 'enable': return '(OEnable %s)' % caddr(o[1])
     if o[0] == 'delete': return '(ODelete %s)' % caddr(o[1])
+    if o[0] == 'delrace': return '(ODeleteReconnect %s %s)' % (caddr(o[1]), crole(o[2]))
     return '(OAdmin %s %s)' % (caddr(o[1]), cbool(o[2]))
 
 def acc_to_val(c):
@@ -110,7 +111,7 @@ def canon_acc(obs):
 class Prop:
     pid = 'C16'
     props_file = 'Props/C16.v'
-    required_theorems = ['negotiate_mirror', 'family_in_force_iff_both', 'flags_in_force_iff_both', 'graceful_restart_mirror', 'send_max_iff_addpath_tx', 'llgr_mirror', 'contains_eq_bit_prefix', 'contains_beyond_width', 'send_max_any_filter_refuted', 'llgr_all_entries_refuted', 'accept_iff_permitted', 'accept_only_if_text', 'session_fields_from_config', 'dynamic_peer_removed', 'dynamic_peers_have_connections', 'peer_group_inheritance', 'local_cap_from_config', 'admission_independent_of_group_order', 'overlapping_groups_order_dependent']
+    required_theorems = ['negotiate_mirror', 'family_in_force_iff_both', 'flags_in_force_iff_both', 'graceful_restart_mirror', 'send_max_iff_addpath_tx', 'llgr_mirror', 'contains_eq_bit_prefix', 'contains_beyond_width', 'send_max_any_filter_refuted', 'llgr_all_entries_refuted', 'accept_iff_permitted', 'accept_only_if_text', 'session_fields_from_config', 'dynamic_peer_removed', 'dynamic_peers_have_connections', 'peer_group_inheritance', 'local_cap_from_config', 'admission_independent_of_group_order', 'overlapping_groups_order_dependent', 'stale_task_removes_live_dynamic_peer_refuted']
     correspondence_name = ('Model/Negotiate.v vs packet/src/bgp.rs IpNet::contains, PeerCodec::negotiate (harness/hx-neg) and '
                            'daemon fsm.rs effective send-max, event/mod.rs negotiate_gr/negotiate_llgr (harness/daemon/event_hx.rs verif_neg_cases); '
                            'Model/Accept.v vs event/mod.rs accept_connection, Global::add_peer, PeerSession::run bookkeeping and event/peer.rs '
@@ -266,7 +267,8 @@ class Prop:
             elif x < 0.89: ops.append(('admin', a, rng.random() < 0.6))
             elif x < 0.94: ops.append(('disable', a, 0))
             elif x < 0.97: ops.append(('enable', a, 0))
-            else: ops.append(('delete', a, 0))
+            elif x < 0.985 or a[0] == 6: ops.append(('delete', a, 0))
+            else: ops.append(('delrace', a, rng.choice([0, 1])))
         return dict(kind='acc', asn=65000, rid=0x01000001, confed=confed, restarting=rng.random() < 0.15,
                     groups=groups, statics=statics, ops=[list(o) for o in ops])
 
@@ -528,6 +530,11 @@ class Prop:
             before = rows
             flag = 'ca' if arg == 0 else 'cp'
             exp = {kk: dict(v) for kk, v in before.items()}
+            if kind == 'delrace':
+                # delete_peer, then a connection from the same address while the old tasks end
+                before = {kk: v for kk, v in before.items() if kk != key}
+                exp.pop(key, None); want_static.pop(key, None); dyn.pop(key, None)
+                kind = 'connect'
             if kind == 'connect':
                 row = before.get(key)
                 if row is not None:
